@@ -456,26 +456,24 @@ class TriMesh(PointCloud):
         tri_indices = np.arange(self.trilist.shape[0]).repeat(3)
 
         # Loop over the edges to find the "lonely" triangles that have an edge
-        # that isn't shared with another triangle. Due to the definition of a
-        # triangle and the careful ordering chosen above, each edge will be
-        # seen either exactly once or exactly twice.
+        # that isn't shared with another triangle. An edge can be seen once
+        # (boundary), twice (interior) or more often (non-manifold meshes), so
+        # count the owners of every edge rather than toggling membership.
         # Note that some triangles may appear more than once as it's possible
         # for a triangle to only share one edge with the rest of the mesh (so
         # it would have two "lonely" edges
-        lonely_triangles = {}
+        edge_owners = {}
         for edge, t_i in zip(edge_indices, tri_indices):
             # Sorted the edge indices since we may see an edge (0, 1) and then
             # see it again as (1, 0) when in fact that is the same edge
-            sorted_edge = tuple(sorted(edge))
-            if sorted_edge not in lonely_triangles:
-                lonely_triangles[sorted_edge] = t_i
-            else:
-                # If we've already seen the edge the we will never see it again
-                # so we can just remove it from the candidate set
-                del lonely_triangles[sorted_edge]
+            edge_owners.setdefault(tuple(sorted(edge)), []).append(t_i)
+        lonely_triangles = {
+            edge: owners[0] for edge, owners in edge_owners.items() if len(owners) == 1
+        }
 
         mask = np.zeros(self.n_tris, dtype=bool)
-        mask[np.array(list(lonely_triangles.values()))] = True
+        # (an integer index array also when it is empty: closed meshes)
+        mask[np.array(list(lonely_triangles.values()), dtype=int)] = True
         return mask
 
     def edge_vectors(self):
